@@ -16,8 +16,8 @@
      utils/smtpx.MockSender                                      test double
    al_field_writes (package, function):
      envs EnvironmentBuilder.With*             builder: the environment is published by Build()
-     envs LocationHierarchy.initializeFromRoot, locationNameLookup.addLookup, locationPathLookup.addLookup
-                                               only called from NewLocationHierarchy / ReadLocationHierarchy (construction)
+     (helpers that only run while an object is being built, e.g. envs LocationHierarchy.initializeFromRoot, are recognised by
+      the translator: unexported and every caller chain starts in a constructor-like function)
      flows/definition flow.ChangeLanguage      writes the COPY made by flow.copy() (marshal + ReadFlow), never the receiver
      flows/definition languageTranslation.setTextArray   called by ChangeLanguage on the copy's fresh translation and by
                                                SetItemTranslation
@@ -49,8 +49,6 @@ Definition shared_state_allow : allow_lists := {|
     ("envs", "EnvironmentBuilder.WithDefaultCountry"); ("envs", "EnvironmentBuilder.WithInputCollation");
     ("envs", "EnvironmentBuilder.WithNumberFormat"); ("envs", "EnvironmentBuilder.WithRedactionPolicy");
     ("envs", "EnvironmentBuilder.WithTimeFormat"); ("envs", "EnvironmentBuilder.WithTimezone");
-    ("envs", "LocationHierarchy.initializeFromRoot"); ("envs", "locationNameLookup.addLookup");
-    ("envs", "locationPathLookup.addLookup");
     ("flows/definition", "flow.ChangeLanguage"); ("flows/definition", "languageTranslation.setTextArray");
     ("flows/definition", "localization.SetItemTranslation");
     ("flows/routers", "baseRouter.EnumerateLocalizables");
